@@ -163,4 +163,72 @@ theorem encChunkOk_spec {t : Tbl} {k : Nat} (hk : encChunkOk t k = true) (h : Na
   have e2 : 256 * (h / 256) + h % 256 = h := by omega
   rwa [e2] at this
 
+/-! ### `struct.pack` versus IEEE conversion: the OverflowError branch -/
+
+theorem roundBits_ovf {eb mb : Nat} {s : Bool} {num den : Nat} (h : (roundBits eb mb s num den).2 = true) :
+    num ≠ 0 ∧ (roundBits eb mb s num den).1 = (if s then 2 ^ (eb + mb) else 0) + (2 ^ eb - 1) * 2 ^ mb := by
+  unfold roundBits at *
+  by_cases h0 : num = 0
+  · simp [h0] at h
+  · by_cases h1 : (2 ^ eb - 1) * 2 ^ mb ≤ roundMag eb mb num den
+    · simp [h0, h1]
+    · simp [h0, h1] at h
+
+theorem roundBits_lt {eb mb : Nat} {s : Bool} {num den : Nat} (h : (roundBits eb mb s num den).2 = false) :
+    ∃ mag, (roundBits eb mb s num den).1 = (if s then 2 ^ (eb + mb) else 0) + mag ∧
+      (mag < (2 ^ eb - 1) * 2 ^ mb ∨ mag = 0) := by
+  unfold roundBits at *
+  by_cases h0 : num = 0
+  · exact ⟨0, by simp [h0], Or.inr rfl⟩
+  · by_cases h1 : (2 ^ eb - 1) * 2 ^ mb ≤ roundMag eb mb num den
+    · simp [h0, h1] at h
+    · exact ⟨roundMag eb mb num den, by simp [h0, h1], Or.inl (by omega)⟩
+
+theorem pack_some {eb mb f h : Nat} (hp : packIEEE eb mb f = some h) : ieeeNarrow eb mb f = h := by
+  unfold packIEEE at hp; unfold ieeeNarrow
+  cases hv : f64Val f with
+  | nan => rw [hv] at hp; simpa using hp
+  | inf s => rw [hv] at hp; simpa using hp
+  | fin s m e =>
+    rw [hv] at hp
+    simp only at hp ⊢
+    split at hp
+    · cases hp
+    · simpa using hp
+
+/-- OverflowError: the value is finite and non-zero and IEEE rounding gives ±inf. -/
+theorem pack_none {eb mb f : Nat} (hp : packIEEE eb mb f = none) :
+    ∃ s m e, f64Val f = .fin s m e ∧ m ≠ 0 ∧
+      ieeeNarrow eb mb f = (if s then 2 ^ (eb + mb) else 0) + (2 ^ eb - 1) * 2 ^ mb := by
+  unfold packIEEE at hp; unfold ieeeNarrow
+  cases hv : f64Val f with
+  | nan => rw [hv] at hp; simp at hp
+  | inf s => rw [hv] at hp; simp at hp
+  | fin s m e =>
+    rw [hv] at hp
+    simp only at hp ⊢
+    split at hp
+    · rename_i hov
+      obtain ⟨hn, hb⟩ := roundBits_ovf hov
+      refine ⟨s, m, e, rfl, ?_, hb⟩
+      intro hm; subst hm; simp [dyadicNum] at hn
+    · cases hp
+
+theorem f64Val_zero : f64Val 0 = .fin false 0 0 := by decide
+
+theorem f64Gt_zero_of_fin {f : Nat} {s : Bool} {m : Nat} {e : Int} (hv : f64Val f = .fin s m e) (hm : m ≠ 0) :
+    f64Gt f 0 = !s := by
+  unfold f64Gt
+  rw [hv, f64Val_zero]
+  simp only [FVal.cmp]
+  generalize (e - if e ≤ 0 then e else 0).toNat = k
+  generalize ((0:Int) - if e ≤ 0 then e else 0).toNat = k2
+  have hpos : 0 < m * 2 ^ k := Nat.mul_pos (Nat.pos_of_ne_zero hm) (Nat.two_pow_pos k)
+  generalize m * 2 ^ k = x at hpos
+  cases s <;> simp [sgnMant]
+  · have h1 : ¬ ((x : Int) < 0) := by omega
+    have h2 : x ≠ 0 := by omega
+    simp [h1, h2]
+  · simp [hpos]
+
 end BM.C11
